@@ -1262,6 +1262,7 @@ func init() {
 			c.Cov.Bound["double_edits"] = "pairs of edits of honest proofs of <=2 leaves, N in 3..6, Verify/Pollard.Verify/MapPollard"
 			enumEdits(c, 3, 6, 2, true, main, props)
 		}
+		enumRepeats(c, sound, props)
 		// verifiers with a history: instances that went through blocks, a Verify(remember) call and an
 		// Undo are offered every honest proof of the neighbouring state (before the last block / before
 		// the last undo); an accepted claim must be true now
@@ -1298,4 +1299,67 @@ func init() {
 		enumTriples(c, tripleCfg{States: ost, T: 1, P: 1, Mismatch: true, Vers: offsetVerifiers(true)}, props)
 		enumEditsStates(c, ost, 2, false, offsetVerifiers(true), props, nil)
 	}
+}
+
+// enumRepeats: honest one-leaf proofs extended by k copies of a FALSE claim about an ancestor of the
+// leaf (a nested target repeated k times, k around 256), with every upper sibling hash supplied k+1
+// times - the shape in which a count of calculated roots kept in 8 bits would wrap. Every verifier
+// must reject (or, if it accepts, the claims must be true, which they are not).
+func enumRepeats(c *Ctx, vers []verSpec, props map[string]bool) {
+	s := ref.State{}.Apply(nil, 8)
+	type task struct {
+		spec verSpec
+		r    uint8
+		k    int
+		h    Hash
+	}
+	var tasks []task
+	for _, sp := range vers {
+		for _, r := range []uint8{1, 2} {
+			for _, k := range []int{255, 256, 257, 511, 512, 513} {
+				for _, h := range []Hash{ref.LeafHash(5), ref.FreshHash(3)} {
+					tasks = append(tasks, task{sp, r, k, h})
+				}
+			}
+		}
+	}
+	c.Cov.Bound["repeated_nested_targets"] = "8 leaves: leaf 0 plus k in {255,256,257,511,512,513} copies of a false claim at its row-1 / row-2 ancestor, upper sibling hashes k+1 times"
+	runInputTasks(c, len(tasks), func(i int, w *inWorker) {
+		tk := tasks[i]
+		w.task = nil
+		v, err := buildVinst(tk.spec, s, nil)
+		if err != nil || v == nil {
+			return
+		}
+		L := v.L
+		hp := L.Proof([]int{0}) // targets [0], proof = siblings bottom-up
+		anc := ref.PosOf(tk.r, 0, L.R)
+		ts := []uint64{0}
+		hs := []Hash{ref.LeafHash(0)}
+		for j := 0; j < tk.k; j++ {
+			ts = append(ts, anc)
+			hs = append(hs, tk.h)
+		}
+		var pr []Hash
+		for row, sib := range hp.Proof {
+			if uint8(row) < tk.r {
+				pr = append(pr, sib)
+				continue
+			}
+			for j := 0; j <= tk.k; j++ {
+				pr = append(pr, sib)
+			}
+		}
+		w.publish(tk.spec.ID, s.N(), aliveKey(s), 0, ts, hs, pr)
+		inputsEval(v, hs, u.Proof{Targets: ts, Proof: pr}, func(prop, sig, detail string) {
+			if props[prop] {
+				if len(detail) > 600 {
+					detail = detail[:600] + " ..."
+				}
+				c.Col.Add(Violation{Prop: prop, Sig: sig, Detail: detail, Case: mkCase("inputs", w.raw.toCase())})
+			}
+		})
+		c.Cov.AddEvals(1)
+		c.Cov.AddTransitions(1)
+	})
 }
